@@ -450,7 +450,10 @@ class PtychographyDatasetBase(AutoSerialize, OptimizerMixin, torch.nn.Module):
     @property
     def _obj_shape_crop_2d(self) -> np.ndarray:
         """All object shapes are 2D"""
-        shp = np.floor(self.fov / self.obj_sampling)
+        # the raster positions span [0, fov / sampling] inclusive: floor(.) + 1 pixels hold them,
+        # one more so that float rounding of the quotient cannot drop the last scan line (the
+        # positions would otherwise be moved by clip_scan_positions)
+        shp = np.floor(self.fov / self.obj_sampling) + 2
         shp += shp % 2
         shp = shp.astype("int")
         return shp
